@@ -291,10 +291,16 @@ def main() -> int:
                     break
                 chunk //= 2
 
+        w = runner.world(prop, plan["world"])
+        valid_plan = getattr(w, "valid_plan", None)
+
         def still_fails(cand: dict) -> bool:
+            # a shrunk plan must still be one whose expectations mean something (e.g. a
+            # component-world plan in which somebody still publishes what others wait for)
+            if valid_plan is not None and not valid_plan(cand, plan):
+                return False
             return fails(prelude + [cand])
 
-        w = runner.world(prop, plan["world"])
         small, used = shrink(plan, still_fails, simplest=getattr(w, "SIMPLEST", None), max_runs=300 if not prelude else 60)
         res = runner.hermetic(_exec_full, prelude + [small])
         msg = next((x["msg"] for x in res["violations"] if x["rule"] == rule and x["key"] == key), rec["msg"])
